@@ -440,9 +440,21 @@ func (l *lruFlow) cond(x *Exec, cond ast.Expr, truth bool, s St) ([]St, bool) {
 		strict := false
 		switch e := ast.Unparen(cond).(type) {
 		case *ast.BinaryExpr:
-			lhs = l.base.LinEval(x, e.X, s)
-			rhs, _ = l.base.Term(x, e.Y, s)
-			strict = e.Op == token.GTR
+			// a > b and b < a are the same guard: normalise to big > small, then
+			// move everything except maxSize to the left
+			big, small := e.X, e.Y
+			if e.Op == token.LSS || e.Op == token.LEQ {
+				big, small = e.Y, e.X
+			}
+			d := l.base.LinEval(x, big, s).Add(l.base.LinEval(x, small, s), -1)
+			if d.T["$recv.maxSize"] == -1 {
+				rhs = "$recv.maxSize"
+				lhs = d.Add(linAtom("$recv.maxSize"), 1)
+			} else {
+				lhs = l.base.LinEval(x, big, s)
+				rhs, _ = l.base.Term(x, small, s)
+			}
+			strict = e.Op == token.GTR || e.Op == token.LSS
 		case *ast.CallExpr:
 			if calleeKey(x.Fn.Info, e) == "disk.sumLargerThan" && len(e.Args) == 3 {
 				lhs = l.base.LinEval(x, e.Args[0], s).Add(l.base.LinEval(x, e.Args[1], s), 1)
@@ -988,29 +1000,34 @@ func lruMisc(c *Ctx, want map[string]bool) {
 	if want["R05e"] {
 		R.Rule("R05e", "E3", "two-phase sizing: Put reserves the logical size and commit adds an item with size = logical size and sizeOnDisk = bytes written", 2)
 		if fi := c.P.MustFunc(R, "R05e", "disk.(*diskCache).commit"); fi != nil {
+			// commit(key, legacy, tempfile, reservedSize, logicalSize, sizeOnDisk, random)
 			ok := false
 			ast.Inspect(fi.Decl.Body, func(n ast.Node) bool {
 				if cl, k := n.(*ast.CompositeLit); k && strings.HasSuffix(info.TypeOf(cl).String(), "disk.lruItem") {
-					m := map[string]string{}
+					m := map[string]types.Object{}
 					for _, el := range cl.Elts {
 						if kv, k := el.(*ast.KeyValueExpr); k {
-							m[exprStr(kv.Key)] = exprStr(kv.Value)
+							m[exprStr(kv.Key)] = identObj(info, kv.Value)
 						}
 					}
-					ok = m["size"] == "logicalSize" && m["sizeOnDisk"] == "sizeOnDisk" && m["legacy"] == "legacy" && m["random"] == "random"
+					ok = m["size"] != nil && m["size"] == paramObj(fi, 4) && m["sizeOnDisk"] == paramObj(fi, 5) && m["legacy"] == paramObj(fi, 1) && m["random"] == paramObj(fi, 6)
 				}
 				return true
 			})
-			R.Check(ok, "R05e", c.Cfg+"commit:item-fields", c.P.Pos(fi.Decl.Pos()), "the indexed item carries (size: logicalSize, sizeOnDisk: sizeOnDisk, legacy, random) of the file written", "commit builds the lruItem from other values")
+			R.Check(ok, "R05e", c.Cfg+"commit:item-fields", c.P.Pos(fi.Decl.Pos()), "the indexed item carries (size: logical size, sizeOnDisk: size on disk, legacy, random) as passed by the caller, parameter by parameter", "commit builds the lruItem from other values")
 		}
 		if fi := c.P.MustFunc(R, "R05e", "disk.(*diskCache).Put"); fi != nil {
 			ok := false
+			written := lhsObjOfCall(fi, "disk.(*diskCache).writeAndCloseFile", 0)
+			random := lhsObjOfCall(fi, "tempfile.(*Creator).Create", 1)
+			size := paramObj(fi, 3)
 			for _, call := range callsIn(fi.Decl.Body, false) {
 				if calleeKey(info, call) == "disk.(*diskCache).commit" && len(call.Args) == 7 {
-					ok = exprStr(call.Args[3]) == "size" && exprStr(call.Args[4]) == "size" && exprStr(call.Args[5]) == "sizeOnDisk" && exprStr(call.Args[2]) == "blobFile" && exprStr(call.Args[6]) == "random" && exprStr(call.Args[1]) == "legacy"
+					ok = size != nil && identObj(info, call.Args[3]) == size && identObj(info, call.Args[4]) == size &&
+						written != nil && identObj(info, call.Args[5]) == written && random != nil && identObj(info, call.Args[6]) == random
 				}
 			}
-			R.Check(ok, "R05e", c.Cfg+"Put:commit-args", c.P.Pos(fi.Decl.Pos()), "Put commits (reserved = size, logical = size, sizeOnDisk = bytes written by writeAndCloseFile)", "unexpected arguments to commit in Put")
+			R.Check(ok, "R05e", c.Cfg+"Put:commit-args", c.P.Pos(fi.Decl.Pos()), "Put commits (reserved = size, logical = size, sizeOnDisk = bytes written by writeAndCloseFile, random = the suffix tempfile.Create chose)", "unexpected arguments to commit in Put")
 		}
 	}
 }
@@ -1067,4 +1084,41 @@ func staleHandles(c *Ctx) {
 	x := NewExec(c.P.FlowOf(fi), base)
 	x.Run(newSt())
 	R.Check(n >= 2, "R03e", c.Cfg+kAvail+":RemoveElement-sites", "", "both RemoveElement call sites of availableOrTryProxy were analysed", fmt.Sprintf("found %d", n))
+}
+
+
+// paramObj returns the object of the idx-th parameter of fi (nil if absent).
+func paramObj(fi *FuncInfo, idx int) types.Object {
+	i := 0
+	if fi.Decl.Type.Params == nil {
+		return nil
+	}
+	for _, f := range fi.Decl.Type.Params.List {
+		for _, n := range f.Names {
+			if i == idx {
+				return fi.Pkg.TypesInfo.Defs[n]
+			}
+			i++
+		}
+	}
+	return nil
+}
+
+// lhsObjOfCall returns the variable that receives the idx-th result of the
+// (first) assignment from a call of callee in fi.
+func lhsObjOfCall(fi *FuncInfo, callee string, idx int) types.Object {
+	info := fi.Pkg.TypesInfo
+	var out types.Object
+	ast.Inspect(fi.Decl.Body, func(n ast.Node) bool {
+		if out != nil {
+			return false
+		}
+		if as, ok := n.(*ast.AssignStmt); ok && len(as.Rhs) == 1 && idx < len(as.Lhs) {
+			if call, ok := ast.Unparen(as.Rhs[0]).(*ast.CallExpr); ok && calleeKey(info, call) == callee {
+				out = identObj(info, as.Lhs[idx])
+			}
+		}
+		return true
+	})
+	return out
 }
